@@ -84,7 +84,7 @@ CLAIMED = {
         'of coset_representative; the table is universal: into every model (an action of the generators on points with inverse generators undoing generators, relators acting '
         'trivially, subgroup generators fixing a base point) there is an equivariant map of the rows sending row 0 to the base point, i.e. the enumeration never identifies two '
         'rows that some model separates (the contract form of "exactly [G:H] rows"); for every complete table in which inverse generators undo generators, every '
-        '(row, word) coset_representative returns traces from row 0 to that row; get/set/join are specified against the abstract action with whole-table frames; the scans '
+        '(row, word) coset_representative returns traces from row 0 to that row, and for a transitive table (what coset_table returns) EVERY row gets a word; get/set/join are specified against the abstract action with whole-table frames; the scans '
         'trace exactly the prefix they report.',
    note='Trusted: Verus+Z3, vstd, VecDeque/BTreeMap::from specs; all_gens and five std collection expressions in coset_table (BTreeSet new/extend/iteration, iter().chain(), '
         'Vec::extend(Option)) by their std semantics; the row-limit assert as an abort; FreeWord and IntPartition by the contracts proved in units free_words / partitions '
